@@ -71,6 +71,9 @@ def get_pure_type(col_type):
 def get_type_default(col_type):
   return _type_defaults.get(get_pure_type(col_type), None)
 
+def is_known_type(col_type):
+  return isinstance(col_type, str) and get_pure_type(col_type) in _type_defaults
+
 def formulaType(grist_type):
   """
   formulaType(gristType) is a decorator which saves the type as the 'grist_type' attribute
